@@ -201,7 +201,7 @@ Variable compress : bytes -> bytes.
 Variables block_size interval compression : N.
 
 (* the Snappy decoder inverts the compression function wherever its output is kept *)
-Hypothesis Hcompress : forall raw,
+Hypothesis Hcompress : compression = 1 -> forall raw,
   nlen (compress raw) < nlen raw - nlen raw / 8 ->
   snappy_decode_size (compress raw) <> None /\ snappy_decode (compress raw) = Ok (Some raw).
 
@@ -245,9 +245,9 @@ Proof.
   exists (file_of chunks), contents, ty, []. rewrite app_nil_r.
   split; [exact Hf|]. subst h. cbn [fst snd]. split; [symmetry; exact Ho|]. split; [reflexivity|].
   unfold block_contents in Ec.
-  destruct (compression =? 1).
+  destruct (compression =? 1) eqn:Ecomp.
   - destruct (nlen (compress (bb_finish b)) <? nlen (bb_finish b) - nlen (bb_finish b) / 8) eqn:E.
-    + inversion Ec; subst. right. split; [reflexivity|]. apply Hcompress. lia.
+    + inversion Ec; subst. right. split; [reflexivity|]. apply Hcompress; [lia|lia].
     + inversion Ec; subst. left. auto.
   - inversion Ec; subst. left. auto.
 Qed.
@@ -559,3 +559,99 @@ Proof.
 Qed.
 
 End RoundTrip.
+
+(* ------------------------------------------------------------------ *)
+(* The hypotheses on the comparator hooks hold for the two lcdb         *)
+(* comparators.                                                         *)
+(* ------------------------------------------------------------------ *)
+Lemma tbl_sep_len : forall a b, nlen (tbl_sep a b) <= nlen a.
+Proof.
+  induction a as [|x a IH]; intros b; cbn [tbl_sep]; [lia|].
+  destruct b as [|y b]; [lia|].
+  destruct (x =? y).
+  - specialize (IH b). rewrite !nlen_cons. lia.
+  - destruct ((x <? 255) && (x + 1 <? y)); rewrite ?nlen_cons, ?nlen_nil; lia.
+Qed.
+
+Lemma tbl_succ_len : forall a, nlen (tbl_succ a) <= nlen a.
+Proof.
+  induction a as [|x a IH]; cbn [tbl_succ]; [lia|].
+  destruct (x =? 255); rewrite ?nlen_cons, ?nlen_nil; lia.
+Qed.
+
+Definition dkey_bytewise (k : bytes) : Prop := nlen k < 4294967296.
+Definition dkey_internal (k : bytes) : Prop := nlen k < 4294967296 /\ 8 <= nlen k.
+
+Lemma bytewise_hooks :
+  (forall k, dkey_bytewise k -> ikeyok false k) /\
+  (forall a b, dkey_bytewise a -> ikeyok false (tbl_sep a b)) /\
+  (forall a, dkey_bytewise a -> ikeyok false (tbl_succ a)).
+Proof.
+  unfold dkey_bytewise, ikeyok. repeat split; intros; try discriminate; auto.
+  - pose proof (tbl_sep_len a b). lia.
+  - pose proof (tbl_succ_len a). lia.
+Qed.
+
+Lemma tbl_seek_tag_len : nlen tbl_seek_tag = 8.
+Proof. reflexivity. Qed.
+
+Lemma nlen_tbl_user_key : forall k, 8 <= nlen k -> nlen (tbl_user_key k) = nlen k - 8.
+Proof. intros. unfold tbl_user_key. apply nlen_take_n_le. lia. Qed.
+
+Lemma internal_hooks :
+  (forall k, dkey_internal k -> ikeyok true k) /\
+  (forall a b, dkey_internal a -> ikeyok true (tbl_isep a b)) /\
+  (forall a, dkey_internal a -> ikeyok true (tbl_isucc a)).
+Proof.
+  unfold dkey_internal, ikeyok. split; [|split].
+  - intros k [A B]. auto.
+  - intros a b [A B]. unfold tbl_isep.
+    destruct ((nlen (tbl_sep (tbl_user_key a) (tbl_user_key b)) <? nlen (tbl_user_key a))
+              && bytes_ltb (tbl_user_key a) (tbl_sep (tbl_user_key a) (tbl_user_key b))) eqn:E.
+    + apply andb_prop in E. destruct E as [E _].
+      rewrite nlen_app, tbl_seek_tag_len. rewrite nlen_tbl_user_key in E by exact B.
+      split; [lia|intros _; lia].
+    + auto.
+  - intros a [A B]. unfold tbl_isucc.
+    destruct ((nlen (tbl_succ (tbl_user_key a)) <? nlen (tbl_user_key a))
+              && bytes_ltb (tbl_user_key a) (tbl_succ (tbl_user_key a))) eqn:E.
+    + apply andb_prop in E. destruct E as [E _].
+      rewrite nlen_app, tbl_seek_tag_len. rewrite nlen_tbl_user_key in E by exact B.
+      split; [lia|intros _; lia].
+    + auto.
+Qed.
+
+(* round trip for the two driver instances (comparator id 0 / 1) *)
+Theorem table_entries_build_bytewise :
+  forall bits compress block_size interval compression paranoid verify es,
+  (compression = 1 -> forall raw, nlen (compress raw) < nlen raw - nlen raw / 8 ->
+     snappy_decode_size (compress raw) <> None /\ snappy_decode (compress raw) = Ok (Some raw)) ->
+  Forall (fun e => nlen (fst e) < 4294967296 /\ nlen (snd e) < 4294967296) es ->
+  nlen es + 1 < 4294967296 ->
+  let file := table_build_i 0 bits compress block_size interval compression es in
+  wf_bytes file = true -> nlen file < 18446744073709551616 ->
+  table_entries_i 0 bits paranoid verify file = Ok (inr es).
+Proof.
+  intros bits compress block_size interval compression paranoid verify es Hc Hes Hn file Hwf Hlen.
+  destruct bytewise_hooks as (H1 & H2 & H3).
+  apply (table_entries_build false tbl_sep tbl_succ (inst_has_filter bits) (inst_fbuild 0 bits)
+           compress block_size interval compression Hc dkey_bytewise H1 H2 H3); auto.
+  eapply Forall_impl; [|exact Hes]. intros e [A B]. split; [split; assumption|exact A].
+Qed.
+
+Theorem table_entries_build_internal :
+  forall bits compress block_size interval compression paranoid verify es,
+  (compression = 1 -> forall raw, nlen (compress raw) < nlen raw - nlen raw / 8 ->
+     snappy_decode_size (compress raw) <> None /\ snappy_decode (compress raw) = Ok (Some raw)) ->
+  Forall (fun e => nlen (fst e) < 4294967296 /\ 8 <= nlen (fst e) /\ nlen (snd e) < 4294967296) es ->
+  nlen es + 1 < 4294967296 ->
+  let file := table_build_i 1 bits compress block_size interval compression es in
+  wf_bytes file = true -> nlen file < 18446744073709551616 ->
+  table_entries_i 1 bits paranoid verify file = Ok (inr es).
+Proof.
+  intros bits compress block_size interval compression paranoid verify es Hc Hes Hn file Hwf Hlen.
+  destruct internal_hooks as (H1 & H2 & H3).
+  apply (table_entries_build true tbl_isep tbl_isucc (inst_has_filter bits) (inst_fbuild 1 bits)
+           compress block_size interval compression Hc dkey_internal H1 H2 H3); auto.
+  eapply Forall_impl; [|exact Hes]. intros e (A & B & C). split; [split; assumption|split; assumption].
+Qed.
